@@ -9,6 +9,8 @@ import (
 // If any of the components return an error the Join component will immediately return with the error.
 func Join(components ...Component) Component {
 	return ComponentFunc(func(ctx context.Context, w io.Writer) (err error) {
+		// The joined components are parts of one document: they share one rendering context.
+		ctx = InitializeContext(ctx)
 		// Join has no children slot, a block passed to it must not reach the joined components.
 		ctx = ClearChildren(ctx)
 		for _, c := range components {
